@@ -221,6 +221,23 @@ def r3_no_wrap_and_copier(ctx: Ctx) -> None:
     ctx.check(ok, "write_block_header:copier-delta", "adds exactly 0x200 when the copier-header flag is set, nothing otherwise")
     g3 = CFG(h.node)
     if ifs and ok:
+        # the variable that received the delta is the one whose bytes are packed (a copy taken before the delta is not)
+        shifted = unparse(ifs[0].body[0].target)  # type: ignore[attr-defined]
+        shift_node = g3.node_of(ifs[0].test)
+        copies = {unparse(n.targets[0]): n for n in walk_no_nested(h.node) if isinstance(n, ast.Assign) and len(n.targets) == 1 and isinstance(n.targets[0], ast.Name)
+                  and isinstance(n.value, ast.Name)}
+
+        def source(name: str, depth: int = 0) -> str:
+            """a copy taken AFTER the delta was applied is the shifted value under another name; a copy taken before it is not"""
+            c_ = copies.get(name)
+            if c_ is not None and depth < 5 and name != shifted and g3.dominated_by(g3.node_of(c_), [shift_node]):
+                return source(c_.value.id, depth + 1)  # type: ignore[attr-defined]
+            return name
+
+        packed_vars = {source(n.id) for w in _writes(h.node) for n in ast.walk(w) if isinstance(n, ast.Name) and is_addr(n.id)}
+        if not packed_vars:
+            raise AnalysisError("write_block_header: the packed offset is not an address variable written in place (built elsewhere); not decided")
+        ctx.check(packed_vars == {shifted}, "write_block_header:delta-reaches-pack", f"the packed offset is the variable the copier delta was added to (`{shifted}`); packed: {sorted(packed_vars)}")
         ws = _writes(h.node)
         dn = g3.node_of(ifs[0].test)
         ctx.check(all(g3.dominated_by(g3.node_containing(w), [dn]) for w in ws), "write_block_header:delta-before-pack", "the delta is applied before the offset is packed")
